@@ -112,7 +112,8 @@ def run(chk, scratch):
     def one(job):
         seed, strat, dt = job
         d = os.path.join(scratch, "w%d_%s_%s" % (seed, strat, dt))
-        w = world2.rich_world(seed, n_chroms=3, genes_per_chrom=4, reads_per_t=6, hidden_cov=5, multimappers=False, unmapped=0)
+        w = world2.rich_world(seed, n_chroms=3, genes_per_chrom=4, reads_per_t=6, hidden_cov=5, multimappers=False, unmapped=0,
+                              zoo=tuple(z for z in world2.ZOO_ALL if z != "twins"))
         # twin features: annotated introns / exons that differ by 2..6 bp at one boundary, with reads exactly between the two
         n0 = len(w.reads)
         world2.add_twin_loci(w, per_chrom=3)
